@@ -114,8 +114,22 @@ def gen_text(rng, maxlen=24):
     return "".join(out)
 
 
+# lengths straddling typical limits (80-byte RelayState rule, one-byte and 1 KiB / 4 KiB buffers)
+LENGTHS = [79, 80, 81, 103, 255, 256, 1000, 1023, 1024, 4096, 5000]
+LONG_ALPHABET = string.ascii_letters + string.digits + "-._~" * 3 + " &=?#%+/<>\"'é中"
+
+
+def gen_long(rng, n=None, alphabet=LONG_ALPHABET):
+    """A string of exactly n characters (n from LENGTHS); every position differs from its neighbours
+    often enough that truncation, wrapping or chunking at any offset changes the value."""
+    n = n if n is not None else rng.choice(LENGTHS)
+    return "".join(rng.choice(alphabet) for _ in range(n))
+
+
 def gen_relay(rng):
-    c = rng.randrange(8)
+    c = rng.randrange(10)
+    if c >= 8:
+        return gen_long(rng)
     if c == 0:
         return ""
     if c == 1:
@@ -136,7 +150,11 @@ def gen_dest(rng):
     base = rng.choice(["https://idp.c14.example/sso", "https://sp.c14.example/acs/post", "http://localhost:8088/sso",
                        "https://idp.c14.example/sso;p=1", "https://exämple.c14.example/söö", "/relative/path", "",
                        "https://user:pw@idp.c14.example:8443/sso", "https://[::1]:8443/sso"])
-    c = rng.randrange(20)
+    c = rng.randrange(22)
+    if c == 20:
+        return base + "/" + gen_long(rng, alphabet=string.ascii_letters + string.digits + "-._~/%;:@")
+    if c == 21:
+        return base + "?p=" + gen_long(rng, alphabet=string.ascii_letters + string.digits + "-._~&=+%;/é")
     if c < 6:
         return base
     if c < 10:
@@ -182,7 +200,7 @@ XML_CONTENT = (list(string.ascii_letters + string.digits) + ['&', '<', '>', '"',
 
 def gen_xml_text(rng, maxlen=16):
     out = []
-    for _ in range(rng.randint(0, maxlen)):
+    for _ in range(rng.randint(0, maxlen) if maxlen <= 64 else maxlen):      # long requests: exactly that many positions
         # one position in twelve carries a templating-special sequence (backslash escapes, $1, %s, {0}, ...)
         out.append(rng.choice(TEMPLATE_SEQS) if maxlen <= 64 and rng.randrange(12) == 0 else rng.choice(XML_CONTENT))
     return "".join(out)
@@ -196,7 +214,7 @@ def gen_tree(rng, depth=0, big=0):
     attrs = {}
     for _ in range(rng.randint(0, 3)):
         an = rng.choice(["ID", "Version", "Destination", "IssueInstant", "{urn:c14:ext}flag", "{http://www.w3.org/XML/1998/namespace}lang", "x"])
-        attrs[an] = gen_xml_text(rng)
+        attrs[an] = gen_xml_text(rng) if rng.randrange(25) else gen_xml_text(rng, rng.choice(LENGTHS[:9]))
     text = gen_xml_text(rng, 16 + big)         # `big` makes ONE long text node (the root's)
     children = []
     if depth < 3:
@@ -299,7 +317,7 @@ def gen_message(rng, tier, soap=False):
         return txt, cstr(canon_el(ET.fromstring(txt.encode("utf-8")))), tag
     big = 0
     if c == 3:
-        big = rng.choice([200, 2000, 2000, 20000, 60000]) if tier == "quick" else rng.choice([200, 2000, 20000, 60000, 250000])
+        big = rng.choice(LENGTHS + [20000, 60000]) if tier == "quick" else rng.choice(LENGTHS + [20000, 60000, 250000])
     t = gen_tree(rng, 0, big)
     if soap:
         t = _no_cr(t)
@@ -312,7 +330,35 @@ def gen_message(rng, tier, soap=False):
     return txt, cstr(t), t[0]
 
 
+LEAD = ["\n", " ", "  \n", "\t", "\r\n", "\ufeff", "\ufeff\n", "\n\n   ", "<!-- c -->", "x", "&"]
+
+
+def gen_wire_message(rng, tier):
+    """Message text for the POST / redirect packers and unpackers: as gen_message, and in one case of five
+    without declaration and starting with white space, a BOM, a comment or plain text (the packers
+    take any string; a receiver must not guess the encoding from the first character)."""
+    msg, _, _ = gen_message(rng, tier)
+    if rng.randrange(5) == 0:
+        msg = rng.choice(LEAD) + _soap_spliced(msg)
+    return msg
+
+
 # ------------------------------------------------------------------ cases
+
+
+def hexlooking_indexes():
+    """Endpoint indexes > 255 whose two big-endian bytes `int(field, 16)` would accept (hex digits,
+    sign or white space): a two-byte encoding of them is misread by artifact2destination."""
+    res = []
+    for a in range(256):
+        for b in range(256):
+            try:
+                int(bytes([a, b]), 16)
+            except ValueError:
+                continue
+            if a * 256 + b > 255:
+                res.append(a * 256 + b)
+    return res
 
 
 def inflate_or_none(b):
@@ -405,17 +451,17 @@ def gen_cases(rng, tier):
 
     # ---- HTTP-POST
     for i in range(n(500, 2500)):
-        msg, _, _ = gen_message(rng, tier)
+        msg = gen_wire_message(rng, tier)
         c = rng.randrange(12)
-        typ = "SAMLRequest" if c < 5 else "SAMLResponse" if c < 10 else rng.choice(["SAMLart", "x\"y", "Foo&Bar"])
+        typ = "SAMLRequest" if c < 5 else "SAMLResponse" if c < 10 else rng.choice(["SAMLart", "x\"y", "Foo&Bar", "P" + gen_long(rng, rng.choice(LENGTHS[:9]))])
         if typ not in ("SAMLRequest", "SAMLResponse") and rng.random() < 0.7:
             msg = "".join(ch for ch in msg if ord(ch) < 128)
         via = "apply_binding" if typ in ("SAMLRequest", "SAMLResponse") and rng.random() < 0.5 else "pack"
         yield {"op": "post", "typ": typ, "msg": msg, "loc": gen_dest(rng), "rs": gen_relay(rng), "via": via,
                "inflate": [inflate_row(u8(msg))]}
     # receivers: payloads that were / were not deflated by the sender, and damaged ones
-    for i in range(n(200, 2000)):
-        msg, _, _ = gen_message(rng, "quick")
+    for i in range(n(300, 2000)):
+        msg = gen_wire_message(rng, "quick")
         raw = u8(msg)
         binding = rng.choice(["post", "post", "redirect", "artifact"])
         c = rng.randrange(6)
@@ -448,7 +494,7 @@ def gen_cases(rng, tier):
 
     # ---- HTTP-Redirect
     for i in range(n(600, 3000)):
-        msg, _, _ = gen_message(rng, tier)
+        msg = gen_wire_message(rng, tier)
         c = rng.randrange(12)
         typ = "SAMLRequest" if c < 5 else "SAMLResponse" if c < 10 else rng.choice(["SAMLart", "Other"])
         if typ == "SAMLart":
@@ -528,14 +574,24 @@ def gen_cases(rng, tier):
 
     # ---- artifacts
     stores = [gen_store(rng) for _ in range(n(2, 6))]
-    fixed = [{"entity_id": "https://idp0.c14.example/idp", "eps": [[str(i), "https://idp0.c14.example/ars/%d" % i] for i in (0, 1, 9, 10, 15, 16, 99, 100, 255)]}]
+    fixed = [{"entity_id": "https://idp0.c14.example/idp",
+              "eps": [[str(i), "https://idp0.c14.example/ars/%d" % i] for i in (0, 1, 9, 10, 15, 16, 99, 100, 171, 255, 256, 12337)]}]
     for idx in range(256):          # exhaustive over the representable indexes
+        yield {"op": "artifact", "entity_id": fixed[0]["entity_id"], "handle": hx(bytes(rng.randrange(256) for _ in range(20))),
+               "idx": idx, "sourceid": hashlib.sha1(fixed[0]["entity_id"].encode()).hexdigest(), "ents": fixed, "store": store_json(fixed)}
+    # the whole two-byte range: an index that does not fit must be refused or resolve to itself; the
+    # pairs of bytes that look like hexadecimal text (b"01", b" 1", b"ab", b"+f" ...) are the ones a
+    # two-byte encoding would get misread
+    hexlike = hexlooking_indexes()
+    sweep = [12337, 8241, 24930, 255, 256, 257, 12336, 12338, 65535, 65536] + \
+        (rng.sample(hexlike, 90) if q else hexlike) + [rng.randrange(256, 65536) for _ in range(n(60, 600))]
+    for idx in sweep:
         yield {"op": "artifact", "entity_id": fixed[0]["entity_id"], "handle": hx(bytes(rng.randrange(256) for _ in range(20))),
                "idx": idx, "sourceid": hashlib.sha1(fixed[0]["entity_id"].encode()).hexdigest(), "ents": fixed, "store": store_json(fixed)}
     for i in range(n(200, 2000)):
         ents = rng.choice(stores)
         c = rng.randrange(10)
-        eid = rng.choice(ents)["entity_id"] if c < 8 else "https://unknown.c14.example/" + gen_text(rng, 6)
+        eid = rng.choice(ents)["entity_id"] if c < 8 else "https://unknown.c14.example/" + (gen_text(rng, 6) if c == 8 else gen_long(rng))
         own = [int(e[0]) for en in ents if en["entity_id"] == eid for e in en["eps"] if e[0].isdigit()]
         c = rng.randrange(10)
         idx = rng.choice(own) if own and c < 5 else rng.randrange(256) if c < 7 else rng.choice([-1, 256, 257, 300, 4660, 65535, 65536, -255, 10 ** 6])
@@ -921,11 +977,43 @@ def finding_key(case, impl, lean):
     return None
 
 
+def neighbours(case, rng):
+    """Directed search around a correspondence disagreement: the input classes on which a different
+    but plausible implementation of the same step goes wrong."""
+    op = case["op"]
+    if op == "artifact":
+        for idx in [12337, 8241, 24930] + rng.sample(hexlooking_indexes(), 40) + [255, 256, 65535]:
+            c = dict(case)
+            c["idx"] = idx
+            yield c
+    if op in ("post", "redirect"):
+        body = _soap_spliced(case["msg"]) or "<a/>"
+        for lead in LEAD + ["", '<?xml version="1.0"?>']:
+            c = dict(case)
+            c["msg"] = lead + body
+            if "inflate" in c:
+                c["inflate"] = [inflate_row(u8(c["msg"]))]
+            if "deflated" in c:
+                c["deflated"] = hx(zlib.compress(u8(c["msg"]))[2:-4])
+            yield c
+        for n_ in (79, 80, 81, 255, 256, 1024):
+            c = dict(case)
+            c["rs"] = gen_long(rng, n_)
+            yield c
+    if op == "unravel" and case["binding"] == "post":
+        for lead in LEAD:
+            raw = u8(lead + "<a>x</a>")
+            for data in (raw, raw_deflate(raw)):
+                yield {"op": "unravel", "binding": "post", "txt": base64.b64encode(data).decode(),
+                       "inflate": [inflate_row(data)], "expect": hx(raw)}
+
+
 def shrink(case):
     for k in ("rs", "loc", "msg", "thingy", "text"):
         v = case.get(k)
         if isinstance(v, str) and v:
-            for cand in (v[: len(v) // 2], v[len(v) // 2:], v[1:], v[:-1]):
+            # long values: try the lengths around the usual limits first, then halves, then single characters
+            for cand in [v[:k] for k in LENGTHS if k < len(v)][:4] + [v[: len(v) // 2], v[len(v) // 2:], v[1:], v[:-1]]:
                 if cand != v:
                     c = dict(case)
                     c[k] = cand
